@@ -516,6 +516,9 @@ class Command:
             condition: bool = atype in curarg["type"] and self.__is_valid_value_for_arg(
                 curarg, avalue, check_extension
             )
+            if condition and "tag" not in curarg["type"]:
+                # an optional positional argument takes at most one value
+                condition = curarg["name"] not in self.arguments
             if condition:
                 ext = curarg.get("extension")
                 condition = (
